@@ -470,6 +470,8 @@ pub struct Faults {
     pub pacing: u8,
     pub fault: Option<String>,
     pub trunc_fault: Option<String>,
+    /// Fail the k-th read of the OUTPUT file once: "0,<k>,<errno>".
+    pub read_fault: Option<String>,
     pub rlimit_fsize: Option<u64>,
     pub hook_delay: Option<String>,
     pub release: bool,
@@ -583,6 +585,7 @@ pub fn run_clone(dir: &Path, b: &Built, sc: &Scenario, tag: &str, faults: &Fault
     }
     run.fault = faults.fault.clone();
     run.trunc_fault = faults.trunc_fault.clone();
+    run.read_fault = faults.read_fault.clone();
     // One scenario in seven runs pinned to a single CPU (default pipeline widths become 1).
     if sc.src_seed % 7 == 3 {
         run.one_cpu = Some((sc.src_seed >> 8) as usize);
